@@ -65,7 +65,9 @@ MANIFEST = {'note': 'Trusted: Lean 4.33 kernel (axioms propext, Classical.choice
          'forms coincide; the deprecated line_interpolate_point equals the ratio form; Line locate inverts '
          'interpolate for every r; LineString locate inverts interpolate for every simple line string of '
          'positive length and every r (locate_interpolate_ls; SimpleLS implies the pointwise hypothesis '
-         'EarlierApart, including r exactly at a vertex); every interpolated point (ratio and distance forms, '
+         'EarlierApart, including r exactly at a vertex; the hypothesis is sharp: for 0 < r <= 1 the round trip '
+         'holds exactly where the point has not been passed before, otherwise locate reports the earlier, '
+         'strictly smaller fraction); every interpolated point (ratio and distance forms, '
          'from start and from end, Line and LineString, every r / d) lies on the line in the sense of the '
          'Intersects<Coord> kernel; densify keeps the original vertices as a sublist and the ring ends, inserts exactly the lerp '
          'points k/n with n = ceil(d/max), none for d = 0 or d <= max, every piece has length d/n <= max with n '
